@@ -381,14 +381,16 @@ fn small_params() -> MachineParams {
 
 impl Prop for C11 {
     type Case = Case;
+    /// (big bombs and machines are the generated tiers' business: the mutator would otherwise turn
+    /// every input into one and the campaign would crawl)
     fn admissible(case: &Case) -> bool {
         match case {
-            Case::RoundTrip { templates, states, .. } => *states <= 70_000 && templates.states.len() <= 9000 && templates.build().is_ok(),
+            Case::RoundTrip { templates, states, .. } => *states <= 3_000 && templates.states.len() <= 3_000 && templates.build().is_ok(),
             Case::Text { s } | Case::V1Text { s } => s.len() <= 100_000,
             Case::Mutated { base, muts, .. } => base.states.len() <= 64 && base.build().is_ok() && muts.len() <= 32,
             Case::Mirror { base, mutations } => base.states.len() <= 64 && mutations.len() <= 16,
-            Case::Bomb { mib, .. } => *mib <= 256,
-            Case::V1 { machine, muts, bomb_mib, .. } => machine.states.len() <= 16 && muts.len() <= 32 && *bomb_mib <= 64,
+            Case::Bomb { mib, .. } => *mib <= 4,
+            Case::V1 { machine, muts, bomb_mib, .. } => machine.states.len() <= 16 && muts.len() <= 32 && *bomb_mib <= 1,
         }
     }
 
